@@ -198,6 +198,7 @@ int main(int argc, char** argv)
         // ... and in the classic C++ locale; an op may carry "locale" to install a global locale with digit grouping
         std::locale::global(std::locale::classic());
         shim_disarm();
+        shim_set_fault_site(false);
         shim_set_step_budget(50000000);
         shim_set_inflate_budget(100000);
         int i = 0;
